@@ -20,14 +20,16 @@ import treegen
 PROFILES = {
     "C01": dict(mc=[("N1zero", 2, 2, 3)], mc_thorough=[("N1zero", 2, 2, 1), ("F2fix", 2, 2, 2), ("N1fix", 2, 2, 3), ("F2zero", 2, 3, 1)],
                 gen=dict(nops=12), n=(240, 4000), lazy=0.4),
-    "C02": dict(mc=[("F2fix", 2, 2, 1)], mc_thorough=[("F2fix", 2, 2, 2), ("F2tier", 2, 2, 1), ("N1fix", 2, 2, 3), ("F2unit", 2, 3, 1)],
-                gen=dict(nops=12), n=(240, 4000), lazy=0.2),
+    "C02": dict(mc=[("F2fix", 2, 2, 1)], mc_thorough=[("F2fix", 2, 2, 2), ("F2tier", 2, 2, 1), ("N1fix", 2, 2, 3), ("F2unit", 2, 3, 1), ("FIfix", 2, 2, 1)],
+                gen=dict(nops=12, trees=["F2", "F3", "N1", "S2", "N2", "FI3", "FI4", "FI4"]), n=(240, 4000), lazy=0.2),
     "C03": dict(mc=[("F2zero", 2, 2, 1)], mc_thorough=[("F2zero", 2, 3, 1), ("F2zero", 3, 2, 1), ("F2fix", 2, 2, 2), ("N1zero", 2, 2, 3)],
                 gen=dict(nops=14, p_flow=0.45), n=(240, 4000), lazy=0.0),
     "C07": dict(mc=[("F2tier", 2, 2, 1)], mc_thorough=[("F2tier", 2, 2, 2), ("F2unit", 2, 2, 1), ("N1fix", 2, 2, 3), ("F2fix", 2, 3, 1)],
                 gen=dict(nops=14, p_custom=0.3, same_sec=True), n=(240, 4000), lazy=0.2),
     "C08": dict(mc=[("F2unit", 2, 2, 1)], mc_thorough=[("F2unit", 2, 2, 2), ("F2zero", 3, 2, 1), ("N1zero", 2, 2, 3), ("F2fix", 2, 3, 1)],
                 gen=dict(nops=14, p_redundant=0.4, p_unsettled=0.15), n=(240, 4000), lazy=0.3),
+    "C17": dict(mc=[("FIzero", 2, 2, 1)], mc_thorough=[("FIzero", 2, 3, 1), ("FIfix", 2, 2, 2), ("FIzero", 3, 2, 1)],
+                gen=dict(nops=14, trees=["FI3", "FI4", "FIN"], fund_subs=False), n=(240, 4000), lazy=0.0),
     "C16": dict(mc=[("F2zero", 2, 2, 2)], mc_thorough=[("F2zero", 2, 3, 2), ("N1zero", 2, 2, 2), ("F2fix", 2, 2, 2), ("F2zero", 3, 2, 2)],
                 gen=dict(nops=12, crash=True, leverage=True), n=(240, 4000), lazy=0.0),
 }
@@ -39,6 +41,7 @@ INVARIANT Inv_C07_Ledger
 INVARIANT Inv_C02_Conservation
 INVARIANT Inv_C16_FlagIff
 INVARIANT Inv_C16_Liquidated
+INVARIANT Inv_C17_Notional
 PROPERTY Act_C02_TradesValueNeutral
 PROPERTY Act_C03_FlowNeutral
 PROPERTY Act_C16_Terminal
@@ -85,9 +88,13 @@ def _run_one_fast(args):
     gkw = {k: v for k, v in kw.items() if k in treegen.GEN_KEYS}
     if "trees" in kw:
         ckw["tree"] = rng.choice(kw["trees"])
+    else:
+        ckw["tree"] = rng.choice(["F2", "F3", "N1", "S2", "N2"])
     C = treegen.make_C(rng, **ckw)
+    if C["fi"][0]:
+        gkw["fund_subs"] = False
     g = treegen.HistoryGen(rng, C, **gkw)
-    lazy = rng.random() < lazy_p
+    lazy = rng.random() < lazy_p and not C["fi"][0]
     tr = treedrv.run_online(C, g, tid=idx + 1, lazy=lazy)
     tr["lazy"] = lazy
     return tr
